@@ -159,6 +159,12 @@ func NondetDecimal(label string, scale int) decimal.Decimal {
 	return decimal.RequireFromString(s).Shift(int32(-scale))
 }
 
+// Tag records a concrete string in the draw sequence (no nondeterminism): known-finding predicates can
+// refer to it, e.g. fn == "convertsToQuantity", instead of to an index that shifts when a table grows.
+func Tag(label, value string) {
+	pop("tag")
+}
+
 // Choose is an n-way fork.
 func Choose(label string, n int) int {
 	d := pop("choose")
